@@ -62,16 +62,69 @@ pub fn gen_fileset(rng: &mut Rng, dir: &Path, nfiles: usize, max_rows: usize, wi
             2 => 1 + rng.usize(200),
             _ => 1 + rng.usize(max_rows),
         };
+        let p = dir.join(format!("part-{:02}-{}.parquet", i, rng.below(1000)));
+        if !wide && rows > 0 && rng.chance(1, 4) {
+            // a file with zero-row row groups in the middle (ArrowWriter never writes
+            // one; the low-level writer, Spark and parquet-mr do): a row group's index
+            // is its position in the FILE, empty ones included
+            let t = gen_table(rng, rows, false, i as i64);
+            let n_groups = 2 + rng.usize(5);
+            let mut sizes: Vec<usize> = (0..n_groups).map(|_| if rng.chance(1, 3) { 0 } else { 1 + rng.usize(rows) }).collect();
+            let mut left = rows;
+            for s in sizes.iter_mut() {
+                *s = (*s).min(left);
+                left -= *s;
+            }
+            if left > 0 {
+                sizes.push(left);
+            }
+            write_lowlevel(&p, &t, &sizes);
+            files.push(p);
+            rows_v.push(rows);
+            continue;
+        }
         let t = gen_table(rng, rows, wide, i as i64);
         let rg = *rng.pick(&[1usize, 3, 10, 100, 1000, 1 << 20]);
         let rg = if rows / rg > 30 { rows / 30 + 1 } else { rg };
         let o = PqOpts { files: 1, rg_rows: rg, dictionary: rng.bool(), snappy: rng.bool(), stats: true };
-        let p = dir.join(format!("part-{:02}-{}.parquet", i, rng.below(1000)));
         write_parquet_file(&p, t.schema(), &[t.one_batch()], &o);
         files.push(p);
         rows_v.push(rows);
     }
     FileSet { files, rows: rows_v }
+}
+
+/// The narrow table (id BIGINT NOT NULL, v BIGINT) written with the low-level
+/// writer, one row group per entry of `sizes` (0 = a zero-row row group).
+fn write_lowlevel(path: &Path, t: &Table, sizes: &[usize]) {
+    use parquet::data_type::Int64Type;
+    use parquet::file::properties::WriterProperties;
+    use parquet::file::writer::SerializedFileWriter;
+    use parquet::schema::parser::parse_message_type;
+    let schema = std::sync::Arc::new(parse_message_type("message schema { REQUIRED INT64 id; OPTIONAL INT64 v; }").unwrap());
+    let props = std::sync::Arc::new(WriterProperties::builder().build());
+    let mut w = SerializedFileWriter::new(std::fs::File::create(path).unwrap(), schema, props).unwrap();
+    let mut at = 0usize;
+    for n in sizes {
+        let rows = &t.rows[at..at + n];
+        at += n;
+        let mut rg = w.next_row_group().unwrap();
+        let mut ci = 0;
+        while let Some(mut col) = rg.next_column().unwrap() {
+            if ci == 0 {
+                let ids: Vec<i64> = rows.iter().map(|r| if let Cell::Int(i) = r[0] { i } else { 0 }).collect();
+                col.typed::<Int64Type>().write_batch(&ids, None, None).unwrap();
+            } else {
+                let defs: Vec<i16> = rows.iter().map(|r| if r[1].is_null() { 0 } else { 1 }).collect();
+                let vals: Vec<i64> = rows.iter().filter_map(|r| if let Cell::Int(i) = r[1] { Some(i) } else { None }).collect();
+                col.typed::<Int64Type>().write_batch(&vals, Some(&defs), None).unwrap();
+            }
+            col.close().unwrap();
+            ci += 1;
+        }
+        rg.close().unwrap();
+    }
+    w.close().unwrap();
 }
 
 fn check_cover(set: &SplitSet, inv: &BTreeMap<(String, usize), (i64, u64)>) -> Result<(), String> {
@@ -160,7 +213,7 @@ pub fn run_c11(tier: Tier, seed: u64) -> i32 {
         tier,
         seed,
         "exploration",
-        "generated Parquet file sets (1-8 files, 0-30 row groups each, empty files, narrow and wide schemas) x node counts 1..64: interval cover per (file,row group) against a footer inventory read independently with the parquet crate; byte and row totals; canonical order; invariance under file-list permutation and relocation; digest sensitivity to rename / re-row-grouping / one more row / wider values, judged by whether the independent inventories differ. distinct = distinct (inventory, node count) pairs with >= 2 row groups",
+        "generated Parquet file sets (1-8 files, 0-30 row groups each, empty files, zero-row row groups in the middle of a file, narrow and wide schemas) x node counts 1..64: interval cover per (file,row group) against a footer inventory read independently with the parquet crate; byte and row totals; canonical order; invariance under file-list permutation and relocation; digest sensitivity to rename / re-row-grouping / one more row / wider values, judged by whether the independent inventories differ. distinct = distinct (inventory, node count) pairs with >= 2 row groups",
     );
     let scratch = Scratch::new("c11");
     let mut rng = Rng::new(seed ^ 0xC11);
